@@ -17,7 +17,7 @@ EXTRA = "UO"
 RARE = "JX"
 
 NUM_INT = [1, 2, 10, 57, -18, 100, -1, -2, 0]      # 0: a legal, falsy value
-NUM_FLOAT = [3.1415, 15.9949, -17.026549, 79.966331, 0.984, 42.010565, -2.5]
+NUM_FLOAT = [3.1415, 15.9949, -17.026549, 79.966331, 0.984, 42.010565, -2.5, 0.0, -0.0]    # both float zeros
 UNIMOD = ['Phospho', 'Oxidation', 'Acetyl', 'Carbamidomethyl', 'Methyl', 'Deamidated', 'Amidated']
 ACC = ['UNIMOD:21', 'U:21', 'U:Phospho', 'MOD:00046', 'M:00046', 'XLMOD:02001', 'X:02001', 'UNIMOD:35', 'U:1']
 FORMULA = ['Formula:C2H3O', 'Formula:[13C2]H4', 'Formula:[13C][15N]H4', 'Formula:C2H3O-1', 'Formula:H2O', 'Formula:CH2', 'Formula:CO', 'Formula:Co']
